@@ -70,7 +70,7 @@ Definition available_connections (limit lph nacq nhost : Z) : Z :=
   else k1 host_remain0
   else k0 host_remain0.
 
-(* connect(): `if self._available_connections(key) <= 0: await self._wait_for_available_connection` *)
+(* connect(): `if <capacity> <= 0: await self._wait_for_available_connection` *)
 Definition connect_must_wait (a : Z) : bool := (a <=? 0).
 
 (* _wait_for_available_connection(): `if self._available_connections(key) > 0: break` *)
